@@ -41,7 +41,12 @@ def _same(a, b):
             return False
         if xs:
             if not z3.eq(lift(x).e, lift(y).e):
-                return False
+                cx, cy = _canon(x), _canon(y)
+                if isinstance(cx, SymInt) and isinstance(cy, SymInt):
+                    if not z3.eq(cx.e, cy.e):
+                        return False
+                elif not (not isinstance(cx, SymInt) and not isinstance(cy, SymInt) and cx == cy):
+                    return False
         elif x != y:
             return False
     return True
@@ -58,6 +63,19 @@ def _eq_term(a, b):
     return SymBytes(a).eq_term(b)
 
 
+def _canon(x):
+    """simplified form of a (small) symbolic item so that equal values built along different routes
+    (e.g. (n+42)+1+4 and n+47) are recognised structurally."""
+    if isinstance(x, SymInt) and x.w <= 256:
+        e = z3.simplify(x.e)
+        if z3.is_bv_value(e):
+            return e.as_signed_long()
+        if z3.is_int_value(e):
+            return e.as_long()
+        return SymInt._raw(e, x.lo, x.hi, x.w)
+    return x
+
+
 def flat(args):
     """Flatten a list of byte strings / ints into (shape, items)."""
     shape, items = [], []
@@ -69,7 +87,7 @@ def flat(args):
             it = items_of(a)
             shape.append(len(it))
             items.extend(it)
-    return tuple(shape), items
+    return tuple(shape), [_canon(x) for x in items]
 
 
 def uf(name, args, nout):
@@ -99,7 +117,7 @@ def uf(name, args, nout):
 
 def enc(name, key, iv, data):
     """Ideal invertible cipher, encrypt direction: returns ciphertext items (same length)."""
-    k, v, d = items_of(key), items_of(iv), items_of(data)
+    k, v, d = [_canon(x) for x in items_of(key)], [_canon(x) for x in items_of(iv)], [_canon(x) for x in items_of(data)]
     tab = _state().setdefault(("cipher", name), [])
     for ek, ev, ep, ec in tab:
         if _same(ek, k) and _same(ev, v) and _same(ep, d):
@@ -111,7 +129,7 @@ def enc(name, key, iv, data):
 
 
 def dec(name, key, iv, data):
-    k, v, c = items_of(key), items_of(iv), items_of(data)
+    k, v, c = [_canon(x) for x in items_of(key)], [_canon(x) for x in items_of(iv)], [_canon(x) for x in items_of(data)]
     tab = _state().setdefault(("cipher", name), [])
     for ek, ev, ep, ec in tab:
         if _same(ek, k) and _same(ev, v) and _same(ec, c):
